@@ -23,6 +23,9 @@ from scipy.spatial.distance import squareform
 from rsatoolbox.rdm import RDMs
 from rsatoolbox.inference import bootstrap as B
 
+from lean import rat
+from engines import C09_r3 as R3
+
 PROPERTY = 'C09'
 LEVEL = 'proof'
 P = 'Rsa.Props.C09.'
@@ -34,7 +37,12 @@ THEOREMS = [P + n for n in (
     'sample_entry', 'sample_nan_iff', 'sample_pred_aligned',
     'bootstrap_sample_rdm_spec', 'bootstrap_sample_pattern_spec', 'bootstrap_sample_spec',
     'bootstrap_sample_entry', 'rdm_sample_size_recovered', 'rdm_model_subsample_agrees',
-    'rdm_model_subsamplePattern_agrees', 'rdm_model_subsamplePattern_defined')]
+    'rdm_model_subsamplePattern_agrees', 'rdm_model_subsamplePattern_defined',
+    # round 3
+    'draw_request_tied', 'draw_request_valid', 'nan_rule_tied', 'np_model_agrees',
+    'mixed_rdm_int_never_sampled', 'np_sample_multiplicity', 'session_aligned',
+    'resample_commute', 'testset_partition', 'testset_size', 'testset_thresholds_tied',
+    'boot_testset_pattern_spec', 'equal_frequency_symmetric', 'equal_frequency_of_uniform')]
 RULE = ('one PRNG; stacks of 1-5 RDMs x 2-8 conditions with unique integer tags as '
         'dissimilarities (some source entries NaN or 0), built from vectors or matrices; grouping '
         'descriptors int or str, unique or repeated, list or numpy array, default `index` or a '
@@ -54,7 +62,18 @@ BRANCHES = ['mode:both', 'mode:rdm', 'mode:pattern', 'desc:int', 'desc:str', 'co
             'form:1d', 'container:scalar', 'container:scalar_pattern', 'n_cond:1', 'container:tuple', 'rdm_desc:none', 'pat_desc:none',
             'descriptors:none', 'pat_by:explicit_none', 'op:resample', 'resample:rdm',
             'resample:pattern', 'value:scalar', 'value:np_scalar', 'value:list', 'value:tuple',
-            'value:array', 'value:absent', 'value:repeated', 'resample_by:none', 'resample_by:named']
+            'value:array', 'value:absent', 'value:repeated', 'resample_by:none', 'resample_by:named',
+            # round 3: cross-object sessions, boot_testset, exhaustive frequency, exotic descriptors
+            'op:session', 'session:fixed', 'session:select', 'session:weighted', 'session:interp',
+            'session:multi', 'session:classes', 'session:multi_rdm_model',
+            'op:testset', 'testset:both', 'testset:pattern', 'testset:rdm', 'testset:some',
+            'testset:none', 'testset:grouped', 'testset:pat_left2', 'testset:pat_left3',
+            'testset:rdm_left0', 'testset:rdm_left1',
+            'op:freq_exact', 'freq_exact:rdm', 'freq_exact:pattern', 'freq_exact:unbalanced',
+            'op:exotic', 'exotic:mixed_rdm', 'exotic:mixed_pattern', 'exotic:none_rdm',
+            'exotic:none_pattern', 'exotic:2d_rdm', 'exotic:2d_pattern', 'exotic:rejected',
+            'exotic:handled', 'desc:bool', 'container:array_obj', 'container:array_small',
+            'nested:pattern', 'nested:subset']
 ASSUMPTIONS = [
     'np.random.randint(0, n, size=n) returns n integers in [0, n) (checked on every recorded '
     'call); its uniformity is trusted and only sanity-checked by the 6-sigma frequency cases',
@@ -79,6 +98,14 @@ def _tag_vecs(n_rdm, n_cond):
 
 def _container(vals, cont):
     if cont == 'array':
+        return np.array(vals)
+    if cont == 'array_obj':
+        return np.array(vals, dtype=object)
+    if cont == 'array_small':      # a narrow integer dtype (uint8 / int16) or a fixed-width str dtype
+        if all(isinstance(v, bool) for v in vals):
+            return np.array(vals, dtype=bool)
+        if all(isinstance(v, int) for v in vals):
+            return np.array(vals, dtype=np.uint8 if min(vals) >= 0 else np.int16)
         return np.array(vals)
     if cont == 'tuple':
         return tuple(vals)
@@ -132,7 +159,7 @@ def _num(x):
         return None
     if x == int(x):
         return int(x)
-    return repr(x)
+    return rat(x)          # exact dyadic rational "p/q"
 
 
 def _stack_json(rdms):
@@ -224,6 +251,21 @@ def _call(case):
     res = {}
     try:
         rdms = _build(case)
+        if case.get('nested'):
+            # the stack under test is the product of an earlier step (its `index` is no longer
+            # 0..n-1): a subset of the conditions, or an earlier bootstrap sample over conditions
+            nst = case['nested']
+            if nst['kind'] == 'subset':
+                rdms = rdms.subset_pattern('index', list(nst['keep']))
+            else:
+                np.random.seed(nst['seed'])
+                rdms, _ = B.bootstrap_sample_pattern(rdms)
+            rdms.pattern_descriptors[TAG] = [f'c{i}' for i in range(rdms.n_cond)]   # fresh identities
+            src = _stack_json(rdms)
+            res['nested_case'] = dict(
+                case, n_cond=src['n_cond'], vecs=src['vecs'],
+                pat_desc=[[k, v, 'list'] for k, v in src['pat_desc']])
+            res['nested_source'] = True
         res['source'] = _stack_json(rdms)
         if 'seed' in case.get('draws', {}):
             np.random.seed(case['draws']['seed'])
@@ -329,6 +371,8 @@ def _freq_bad(res):
 # ------------------------------------------------------------------ engine callbacks
 
 def run_impl(case):
+    if case.get('op') in R3.OPS:
+        return R3.OPS[case['op']]['impl'](case)
     if case.get('op') == 'freq':
         return _freq_impl(case)
     r = _call(case)
@@ -343,6 +387,8 @@ def run_impl(case):
            'draws': [c['out'] for c in r['calls']]}
     if 'pred' in r:
         out['pred'] = _canon_stack(_stack_json(r['pred']))
+    if 'nested_source' in r:
+        out['nested'] = True
     return out
 
 
@@ -358,6 +404,8 @@ def _draws_for_model(case):
 
 
 def model_requests(case):
+    if case.get('op') in R3.OPS:
+        return R3.OPS[case['op']]['requests'](case)
     if case.get('op') == 'freq':
         # descriptor taken from the case itself (the real constructor may be what is broken)
         axis = case['axis']
@@ -375,7 +423,7 @@ def model_requests(case):
     if case.get('op') == 'resample':
         op = 'c09.resample_rdm' if case['axis'] == 'rdm' else 'c09.resample'
         return [dict(src, op=op, rdm_by=case.get('by') or 'index', pat_by=case.get('by') or 'index',
-                     value=case['value'])]
+                     value=[_norm(x) for x in case['value']])]
     dr, dp = _draws_for_model(case)
     req = dict(src, op='c09.boot', mode=case['mode'], draws_r=dr, draws_p=dp,
                rdm_by=case.get('rdm_by') or 'index', pat_by=case.get('pat_by') or 'index')
@@ -392,6 +440,8 @@ def model_requests(case):
 
 
 def model_result(case, answers):
+    if case.get('op') in R3.OPS:
+        return R3.OPS[case['op']]['model'](case, answers)
     if case.get('op') == 'freq':
         return {'select': answers[0]}
     if not answers:
@@ -404,16 +454,56 @@ def model_result(case, answers):
     if case.get('op') == 'resample':
         return {'stack': _canon_stack(a['stack']), 'requests': []}
     out = {'stack': _canon_stack(a['stack']), 'rdm_idx': a['rdm_idx'], 'pat_idx': a['pat_idx'],
-           'requests': [[0, sp[1], sp[0]] for sp in (a['spec_r'], a['spec_p']) if sp is not None]}
+           'requests': [list(sp) for sp in (a['spec_r'], a['spec_p']) if sp is not None]}
     if len(answers) > 1:
         b = answers[1]
         out['pred'] = _canon_stack(b['stack']) if 'stack' in b else b
     return out
 
 
+def _diff_stack(name, a, b):
+    """first difference between a library stack `a` and a model stack `b` (canonical form)"""
+    if a['n_cond'] != b['n_cond']:
+        return f"{name}.n_cond {a['n_cond']} != {b['n_cond']}"
+    if b.get('n_cond_2d') is not None and a.get('n_cond_2d') is None and b['n_cond_2d'] != a['n_cond']:
+        return (f"{name}: size recovered from the vector length by the generated leaf "
+                f"{b['n_cond_2d']} != library n_cond {a['n_cond']}")
+    if len(a['vecs']) != len(b['vecs']):
+        return f"{name}: {len(a['vecs'])} RDMs != {len(b['vecs'])}"
+    for r, (x, y) in enumerate(zip(a['vecs'], b['vecs'])):
+        if x != y:
+            k = next((i for i, (p, q) in enumerate(zip(x, y)) if p != q), min(len(x), len(y)))
+            return f'{name}.vecs[{r}][{k}]: library {x[k:k+1]} != model {y[k:k+1]} (lengths {len(x)}, {len(y)})'
+    for d in ('rdm_desc', 'pat_desc'):
+        if sorted(a[d]) != sorted(b[d]):
+            return f'{name}.{d} keys {sorted(a[d])} != {sorted(b[d])}'
+        for k in sorted(a[d]):
+            if a[d][k] != b[d][k]:
+                return f'{name}.{d}[{k}]: library {a[d][k]} != model {b[d][k]}'
+    return None
+
+
+def _compare_boot(case, impl, model):
+    """one bootstrap call: exceptions, randint requests, index arrays, the sample"""
+    if isinstance(model, dict) and 'model_error' in model:
+        return f'model error {model}'
+    if 'exc' in impl or 'exc' in model:
+        if impl.get('exc') != model.get('exc'):
+            return f"library {impl.get('exc')} ({impl.get('msg')}) vs model {model.get('exc')}"
+        return None
+    for k in ('requests', 'rdm_idx', 'pat_idx'):
+        if impl.get(k) != model.get(k):
+            return f'{k}: library {impl.get(k)} != model {model.get(k)}'
+    if any(t != 'ndarray' for t in impl.get('idx_types', [])):
+        return f"indices are not numpy arrays: {impl['idx_types']}"
+    return _diff_stack('stack', impl['stack'], model['stack'])
+
+
 def compare(case, impl, model):
     if isinstance(model, dict) and 'model_error' in model:
         return f'model error {model}'
+    if case.get('op') in R3.OPS:
+        return R3.OPS[case['op']]['compare'](case, impl, model)
     if case.get('op') == 'freq':
         if 'exc' in impl:
             return f"library raised {impl['exc']}: {impl.get('msg')}"
@@ -424,35 +514,19 @@ def compare(case, impl, model):
         if impl.get('exc') != model.get('exc'):
             return f"library {impl.get('exc')} ({impl.get('msg')}) vs model {model.get('exc')}"
         return None
-    for k in ('requests', 'rdm_idx', 'pat_idx'):
-        if impl.get(k) != model.get(k):
-            return f'{k}: library {impl.get(k)} != model {model.get(k)}'
-    if any(t != 'ndarray' for t in impl.get('idx_types', [])):
-        return f"indices are not numpy arrays: {impl['idx_types']}"
-    for name in ('stack', 'pred'):
-        if (name in impl) != (name in model):
-            return f'{name}: present on one side only'
-        if name not in impl:
-            continue
-        a, b = impl[name], model[name]
-        if a['n_cond'] != b['n_cond']:
-            return f"{name}.n_cond {a['n_cond']} != {b['n_cond']}"
-        if b.get('n_cond_2d') is not None and b['n_cond_2d'] != a['n_cond']:
-            return (f"{name}: size recovered from the vector length by the generated leaf "
-                    f"{b['n_cond_2d']} != library n_cond {a['n_cond']}")
-        if len(a['vecs']) != len(b['vecs']):
-            return f"{name}: {len(a['vecs'])} RDMs != {len(b['vecs'])}"
-        for r, (x, y) in enumerate(zip(a['vecs'], b['vecs'])):
-            if x != y:
-                k = next((i for i, (p, q) in enumerate(zip(x, y)) if p != q), min(len(x), len(y)))
-                return f'{name}.vecs[{r}][{k}]: library {x[k:k+1]} != model {y[k:k+1]} (lengths {len(x)}, {len(y)})'
-        for d in ('rdm_desc', 'pat_desc'):
-            if sorted(a[d]) != sorted(b[d]):
-                return f'{name}.{d} keys {sorted(a[d])} != {sorted(b[d])}'
-            for k in sorted(a[d]):
-                if a[d][k] != b[d][k]:
-                    return f'{name}.{d}[{k}]: library {a[d][k]} != model {b[d][k]}'
+    if case.get('op') == 'resample':
+        return _diff_stack('stack', impl['stack'], model['stack'])
+    d = _compare_boot(case, impl, model)
+    if d:
+        return d
+    if ('pred' in impl) != ('pred' in model):
+        return 'pred: present on one side only'
     if 'pred' in impl:
+        if not isinstance(model['pred'], dict) or 'vecs' not in model['pred']:
+            return f"pred: model {model['pred']}"
+        d = _diff_stack('pred', impl['pred'], model['pred'])
+        if d:
+            return d
         if impl['pred']['pat_desc'] != impl['stack']['pat_desc'] and case.get('pred', {}).get('same_desc', True):
             return 'resampled prediction and sample have different pattern descriptors'
     return None
@@ -561,6 +635,8 @@ def _check_sample(case, src_vecs, sample, ridx, pidx, rdm_desc_key='rdm_desc', f
 
 
 def oracle(case):
+    if case.get('op') in R3.OPS:
+        return R3.OPS[case['op']]['oracle'](case)
     if case.get('op') == 'freq':
         res = _freq_impl(case)
         bad = _freq_bad(res)
@@ -574,7 +650,8 @@ def oracle(case):
     if 'exc' in r:
         return {'what': 'bootstrap raised on a valid stack', 'observed': f"{r['exc']}: {r.get('msg')}",
                 'expected': 'a sample', 'features': {'exc': r['exc']}}
-    f = _check_sample(case, case['vecs'], r['sample'], r['ridx'], r['pidx'])
+    c0 = r.get('nested_case', case)       # nested: the derived stack is the source
+    f = _check_sample(c0, c0['vecs'], r['sample'], r['ridx'], r['pidx'])
     if f:
         return f
     if 'pred' in r:
@@ -583,8 +660,9 @@ def oracle(case):
         if f:
             f['what'] = 'resampled prediction: ' + f['what']
             return f
-        a = [_norm(x) for x in r['pred'].pattern_descriptors[TAG]]
-        b = [_norm(x) for x in r['sample'].pattern_descriptors[TAG]]
+        key = TAG if TAG in r['sample'].pattern_descriptors else 'index'
+        a = [_norm(x) for x in r['pred'].pattern_descriptors[key]]
+        b = [_norm(x) for x in r['sample'].pattern_descriptors[key]]
         if a != b:
             return {'what': 'conditions of the resampled prediction are not in the order of the sample',
                     'observed': a, 'expected': b}
@@ -598,6 +676,8 @@ def _groups(vals):
 
 
 def features(case, impl):
+    if case.get('op') in R3.OPS:
+        return R3.OPS[case['op']]['features'](case, impl)
     if case.get('op') == 'freq':
         return {'op': 'freq', 'axis': case['axis'], 'branches': ['freq']}
     resample = case.get('op') == 'resample'
@@ -641,7 +721,8 @@ def features(case, impl):
             br.append('by:default' if by is None else 'by:named')
         vals, cont = d.get(by or 'index', (list(range(n)), 'list'))
         br.append('container:' + cont)
-        kinds.add('str' if any(isinstance(x, str) for x in vals) else 'int')
+        kinds.add('str' if any(isinstance(x, str) for x in vals) else
+                  'bool' if vals and all(isinstance(x, bool) for x in vals) else 'int')
         if _groups(vals) < len(vals):
             br.append('grouped:' + axis)
             if (by or 'index') == 'index':
@@ -654,6 +735,8 @@ def features(case, impl):
         br.append('src:zero')
     if case.get('pred') and not resample and case['mode'] != 'rdm':
         br.append('pred')
+    if case.get('nested'):
+        br.append('nested:' + ('subset' if case['nested']['kind'] == 'subset' else 'pattern'))
     f = {'op': case.get('op', 'boot'), 'mode': case.get('mode', case.get('axis')), 'n_rdm': case['n_rdm'], 'n_cond': case['n_cond'],
          'form': case.get('form', '2d'), 'desc_kind': '+'.join(sorted(kinds))}
     if impl and 'draws' in impl:
@@ -672,6 +755,8 @@ def features(case, impl):
 
 
 def nontrivial_key(case, impl):
+    if case.get('op') in R3.OPS:
+        return [case['op'], json.dumps(case, sort_keys=True)]
     if case.get('op') == 'freq':
         return ['freq', case['axis'], case['n_rdm'], case['n_cond'], case['draws']['seed']]
     if case.get('op') == 'resample':
@@ -683,7 +768,7 @@ def nontrivial_key(case, impl):
             all(_groups(vals) == len(vals) for _, vals, _ in case['rdm_desc'] + case['pat_desc']):
         return None       # identity resample of ungrouped items
     return [case['mode'], case['vecs'], case['rdm_desc'], case['pat_desc'], case.get('rdm_by'),
-            case.get('pat_by'), impl['draws']]
+            case.get('pat_by'), impl['draws'], case.get('nested')]
 
 
 # ------------------------------------------------------------------ generation
@@ -693,6 +778,8 @@ def _labels(rng, n, kind, grouped):
     m = n if not grouped else rng.randint(1, max(1, n - 1))
     if kind == 'int':
         pool = rng.sample(range(-3, 12), min(m, 15))
+    elif kind == 'bool':
+        pool = rng.sample([False, True], min(m, 2))
     else:
         pool = rng.sample(STR_POOL, min(m, len(STR_POOL)))
     vals = list(pool)
@@ -703,7 +790,8 @@ def _labels(rng, n, kind, grouped):
 
 
 def _cont(rng):
-    return rng.choice(['list', 'list', 'list', 'list', 'array', 'array', 'array', 'tuple'])
+    return rng.choice(['list', 'list', 'list', 'list', 'array', 'array', 'array', 'tuple',
+                       'array_obj', 'array_small'])
 
 
 def _axis_desc(rng, n, tagchar):
@@ -713,8 +801,8 @@ def _axis_desc(rng, n, tagchar):
     by = None
     if style == 'named':
         by = rng.choice(['group', 'subj', 'cat'])
-        kind = rng.choice(['int', 'str'])
-        descs.append([by, _labels(rng, n, kind, rng.random() < 0.7), _cont(rng)])
+        kind = rng.choice(['int', 'int', 'int', 'str', 'str', 'str', 'bool'])
+        descs.append([by, _labels(rng, n, kind, rng.random() < 0.7 or kind == 'bool'), _cont(rng)])
     elif style == 'index_rep':
         # a stack that already is a bootstrap sample: `index` repeats
         descs.append(['index', sorted(_labels(rng, n, 'int', True)), _cont(rng)])
@@ -827,6 +915,46 @@ def _freq_case(rng, n_draws):
     return case
 
 
+def _nested_case(rng):
+    """default-descriptor bootstrap of a stack whose `index` is no longer 0..n-1: a subset of the
+    conditions (index e.g. 0,2,3,5) or an earlier bootstrap sample (index e.g. 0,0,3,3)"""
+    case = _make_case(rng, n_cond=rng.choice([4, 5, 6, 7]), mode=rng.choice(['pattern', 'pattern', 'both']))
+    case.pop('pred', None)
+    case.pop('pred_rdm_desc', None)
+    case['pat_desc'] = [d for d in case['pat_desc'] if d[0] != 'index']
+    case['pat_by'] = None
+    n = case['n_cond']
+    if rng.random() < 0.5:
+        keep = sorted(rng.sample(range(n), rng.randint(2, n - 1)))
+        case['nested'] = {'kind': 'subset', 'keep': keep}
+        g = len(keep)
+    else:
+        case['nested'] = {'kind': 'boot', 'seed': rng.randrange(2 ** 31)}
+        g = None
+    if rng.random() < 0.3:
+        case['pat_by_explicit_none'] = True
+    gr = _n_groups(case['rdm_desc'], case['rdm_by'], case['n_rdm'])
+    if g is not None and rng.random() < 0.5:
+        case['draws'] = {'r': [rng.randrange(gr) for _ in range(gr)], 'p': [rng.randrange(g) for _ in range(g)]}
+    else:
+        case['draws'] = {'seed': rng.randrange(2 ** 31)}
+    return case
+
+
+def _round3_stream(rng, scale):
+    """scale = 1 for the quick tier"""
+    for _ in range(150 * scale):
+        yield R3.make_session(rng)
+    for _ in range(120 * scale):
+        yield R3.make_testset(rng)
+    for _ in range(100 * scale):
+        yield _nested_case(rng)
+    for _ in range(120 * scale):
+        yield R3.make_exotic(rng)
+    for _ in range(10 * min(scale, 6)):
+        yield R3.make_fx(rng)
+
+
 def _all_draws(m):
     out = [[]]
     for _ in range(m):
@@ -851,6 +979,7 @@ def generate(rng, tier):
         yield _with_draws(rng, _vary_construction(rng, c), 'seed' if i % 3 else 'inject')
     for _ in range(12 if tier == 'quick' else 60):
         yield _freq_case(rng, 300 if tier == 'quick' else 1500)
+    yield from _round3_stream(rng, 1 if tier == 'quick' else 15)
     # every draw outcome of small stacks (quick: one stack of 3 groups; thorough: up to 4 groups)
     sizes = [(2, 3), (3, 3)] if tier == 'quick' else \
         [(2, 3), (3, 3), (3, 4), (2, 4), (4, 4), (1, 4), (4, 3), (3, 5), (2, 5)]
@@ -888,6 +1017,12 @@ def search(rng, tier):
         yield _with_draws(rng, c, 'inject' if i % 3 else 'seed')
         if i % 25 == 0:
             yield _freq_case(rng, 300)
+        if i % 10 == 0:
+            yield R3.make_session(rng)
+            yield R3.make_testset(rng)
+            yield _nested_case(rng)
+        if i % 200 == 0:
+            yield R3.make_fx(rng)
 
 
 def _fix_draws(c):
@@ -921,7 +1056,9 @@ def _drop_cond(c):
 def shrink(case, still_fails):
     """drop what is not needed for the failure: prediction, extra descriptors, 3-d form,
     trailing RDMs and conditions"""
-    if case.get('op') in ('freq', 'resample'):
+    if case.get('op') == 'session':
+        return R3.shrink_session(case, still_fails)
+    if case.get('op') in ('freq', 'resample') or case.get('op') in R3.OPS or case.get('nested'):
         return case
     cur = json.loads(json.dumps(case))
 
